@@ -70,6 +70,8 @@ def cases(tier, seed):
         ops += ["crc.buf %04x %02x%02x" % (st, rnd.getrandbits(8), rnd.getrandbits(8)) for _ in range(64)]
         cs.append(Case("short-%04x" % st, ops, ("short",)))
     if tier == "thorough":
+        # one buffer beyond 32 bits of length (4 GiB + 4099 octets of address space), against the concatenation law
+        cs.append(Case("huge", ["crc.huge ffff %d %d" % (2 ** 32 + 4099, 2 ** 31 + 7)], ("huge-length",)))
         for st in states[:8]:
             for a in range(0, 256, 8):
                 ops = ["crc.buf %04x %02x%02x" % (st, x, b) for x in range(a, a + 8) for b in range(256)]
